@@ -75,7 +75,7 @@ def edit_stats_for_alignment(alig, empty_symbol=None):
     if len(alig) == 0:
         return 0, 0, 0, 0, 0
 
-    alig = np.array(alig)
+    alig = np.array(alig, dtype=object)
     ncor = np.sum(alig[:, 0] == alig[:, 1])
     ndel = np.sum(alig[:, 0] == np.array(empty_symbol))
     nphn = np.sum(alig[:, 1] != np.array(empty_symbol))
